@@ -139,6 +139,18 @@ CLAIMED = {
         design='DESIGN.md §5 C18',
         note=NOTE_COMMON + 'regex beyond literal patterns, textwrap.shorten (maxwidth) and dateutil (parse_date) are not modelled.',
         technique='Lean 4 proof (structural + kernel enumeration of the 1900-2100 range) + exhaustive domain correspondence'),
+    'C12': dict(
+        text=('Lean theorems over the inventory model (insertion-ordered dict with strict lot keys, delete on zero; exact numbers): '
+              'add_amount changes exactly one lot and keeps keys unique; the summed inventory holds per lot the total of the rows; '
+              'homomorphism over concatenation, permutation invariance, partition additivity, add_inventory; f(SUM) = SUM f for every '
+              'reducer that maps lot keys and multiplies by a key-dependent factor (units, cost, value, convert); the running '
+              'balance with the per-scan guard is the prefix sum for any number >= 1 of references per row, last balance = '
+              'sum(position); a decided counter-example for the former process-wide one-entry cache. Tied to the code by '
+              'correspondence on generated multi-currency ledgers with lots (group sums, units/cost of sums, balance with 1..3 '
+              'references, with an interfering subquery scan, and in WHERE) and by homomorphism/partition oracles on the implementation.'),
+        design='DESIGN.md §5 C12',
+        note=NOTE_COMMON + 'Exact arithmetic domain (<= 28 digits); value()/convert() use the opaque price map: homomorphism checked on the implementation up to context rounding.',
+        technique='Lean 4 proof (commutative-monoid homomorphism, reducer linearity, prefix-sum invariant) + ledger correspondence'),
 }
 
 PENDING_REASON = 'check under construction in this round (model or correspondence not yet registered); not claimed yet'
